@@ -518,6 +518,7 @@ struct LegalDfs<'a> {
     capped: bool,
     bad: Option<(Vec<String>, String)>,
     vocab: &'a crate::vocab::VocabSpec,
+    uncovered_forced: u64,
 }
 
 impl<'a> LegalDfs<'a> {
@@ -558,6 +559,27 @@ impl<'a> LegalDfs<'a> {
         }
         if left == 0 || m.is_stopped() {
             return;
+        }
+        // fast-forward queries are legal calls too (they run the tokenizer over forced text under a canonical
+        // tokenizer); a panic inside them latches the matcher's error state
+        {
+            let mut q = m.clone();
+            self.calls += 2;
+            let _ = q.compute_ff_tokens();
+            let fb = q.compute_ff_bytes();
+            if self.vocab.canonical && fb.iter().any(|b| !self.vocab.tokens.iter().any(|t| t.len() == 1 && t[0] == *b)) {
+                // the grammar forces a byte this canonical vocabulary has no token for: an ill-formed tokenizer
+                // (DESIGN 1.3), the state is a leaf and is counted, never judged
+                self.uncovered_forced += 1;
+                return;
+            }
+            if q.is_error() && !m.is_error() {
+                let s = q.get_error().unwrap_or_default();
+                if Self::is_internal(&s) {
+                    self.bad = Some((ops.clone(), format!("compute_ff_tokens / compute_ff_bytes: {}", s.lines().next().unwrap_or(""))));
+                    return;
+                }
+            }
         }
         let mut probe = m.clone();
         self.calls += 1;
@@ -609,18 +631,19 @@ impl<'a> LegalDfs<'a> {
 fn legal_call_layer(ctx: &Ctx) {
     use crate::jobs::{make_jobs, VKind};
     let items: Vec<crate::corpus::Item> = crate::corpus::all_items();
-    let jobs = make_jobs(&items, &[VKind::Bytes, VKind::Multi2]);
+    let jobs = make_jobs(&items, &[VKind::Bytes, VKind::Multi2, VKind::Multi3Canon]);
     let (n1, n2, branch, cap) = (ctx.tier.pick(3, 4), ctx.tier.pick(3, 4), ctx.tier.pick(4, 5), ctx.tier.pick(20_000u64, 400_000));
     jobs.par_iter().for_each(|job| {
         let Ok(f) = Factory::new(&job.vocab, &Slices::Default) else { return };
         let Ok(root) = f.try_matcher(&job.item.g) else { return };
-        let mut d = LegalDfs { eos: job.vocab.eos, n1, n2, branch, nodes: 0, calls: 0, cap, capped: false, bad: None, vocab: &job.vocab };
+        let mut d = LegalDfs { eos: job.vocab.eos, n1, n2, branch, nodes: 0, calls: 0, cap, capped: false, bad: None, vocab: &job.vocab, uncovered_forced: 0 };
         let mut ops = vec![];
         let r = guarded(|| {
             let n1 = d.n1;
             d.go(&root, n1, 0, 0, &mut ops)
         });
         ctx.count("legal_call_nodes", d.nodes);
+        ctx.count("legal_call_states_with_uncovered_forced_byte", d.uncovered_forced);
         ctx.count(if d.capped { "legal_call_jobs_capped" } else { "legal_call_jobs_complete" }, 1);
         ctx.states.fetch_add(d.nodes, Ordering::Relaxed);
         ctx.transitions.fetch_add(d.calls, Ordering::Relaxed);
